@@ -112,6 +112,14 @@ def cases(R):
             out.append((rng.choice(k3), ('A', g)))
     for _ in range(30000 if R.thorough else 1500):
         out.append((rand_kripke(rng, rng.randint(1, 5)), ('A', rand_path(rng, rng.randint(1, 3)))))
+    # 3- and 4-state structures (transient cycles with an exit, several components) in random edge-insertion orders x EVERY formula
+    # with one temporal operator: the simplest properties on the smallest structures that have more than one non-trivial SCC shape
+    t1 = [g for g in ops1 if g[0] in TEMPORAL] + [('G', ('not', ('ap', 'q'))), ('not', ('U', ('ap', 'p'), ('ap', 'q'))), ('F', ('G', ('ap', 'p'))), ('G', ('F', ('ap', 'q')))]
+    for _ in range(6000 if R.thorough else 400):
+        kd = rand_kripke(rng, rng.choice([3, 3, 4]), maxdeg=2)
+        kd = dict(kd, R=rng.sample(list(kd['R']), len(kd['R'])), S=rng.sample(list(kd['S']), len(kd['S'])))
+        for g in rng.sample(t1, 4):
+            out.append((kd, ('A', g)))
     R.cov['formula_pool'] = {'ops<=1': len(ops1), 'ops<=2': len(ops2)}
     return out
 
